@@ -612,13 +612,13 @@ _assume_for_development()
 FACETS = [
     Facet("opm", lambda s, t: case_of(G.opm_spec(), "opm"), check, setup=_setup,
           rule="object has a covariance, a maneuver, a user field or a non-UTC scale",
-          quick=(8, 250), thorough=(16, 2000)),
+          quick=(10, 180), thorough=(16, 2000)),
     Facet("opm_jpl", lambda s, t: case_of(G.opm_spec(jpl=True), "opm_jpl"), check, setup=_setup_jpl,
           rule="as opm; state in a body-centred frame created from the DE403 file",
           quick=(1, 150), thorough=(4, 1000)),
     Facet("oem", lambda s, t: case_of(G.oem_spec(), "oem"), check, setup=_setup,
           rule="every case (1-2 ephemerides, 1-12 points, 0..N covariances)",
-          quick=(6, 120), thorough=(16, 1000)),
+          quick=(8, 80), thorough=(16, 1000)),
     Facet("omm", lambda s, t: case_of(G.omm_spec(), "omm"), check, setup=_setup,
           rule="every case (orbit from a generated TLE or built like the reader builds it)",
           quick=(4, 200), thorough=(8, 2000)),
